@@ -20,7 +20,7 @@ m["confirmed_in_scratch_worktree"] = {
 }
 m["detected_by"] = det
 if os.path.exists(os.path.join(src, "patch.rebased.diff")):
-    m["patch_note"] = "patch.diff is the change as delivered (against the /repo HEAD of that moment, e6b882c); later fix commits touched the same lines, patch.rebased.diff is the same change ported onto base_commit and is what tools/verify_seed.sh applies"
+    m["patch_note"] = "patch.diff is the change as delivered (against the /repo HEAD of the moment it was written); later fix commits touched the same lines, patch.rebased.diff is the same change ported onto base_commit and is what tools/verify_seed.sh applies"
 if note:
     m["note"] = note
 json.dump(m, open(os.path.join(dst, "meta.json"), "w"), indent=1)
